@@ -105,7 +105,8 @@ def _blocks(node):
 def canon_blocks(tree):
     """block normal forms, applied after CanonCompare:
     * `if c: ...; return/raise/continue/break  else: REST` (and the same spelled as an elif chain) is read as `if c: ...` followed by REST;
-    * `t = E; return t` with t used nowhere else in the function is read as `return E`."""
+    * `t = E; return t` with t used nowhere else in the function is read as `return E`;
+    * an annotated assignment of a local name is read as a plain assignment, and a `pass` that is not the only statement of its block is dropped."""
     def flatten(stmts):
         out = []
         for s in stmts:
@@ -115,6 +116,20 @@ def canon_blocks(tree):
                 out.extend(flatten(rest))
         return out
 
+    def plain(stmts):
+        """`x: T = E` is read as `x = E` (the annotation of a local has no run-time effect); a `pass` next to other statements is dropped"""
+        out = []
+        for s in stmts:
+            if isinstance(s, ast.AnnAssign) and s.value is not None and s.simple and isinstance(s.target, ast.Name):
+                s = ast.copy_location(ast.Assign(targets=[s.target], value=s.value, type_comment=None), s)
+            out.append(s)
+        kept = [s for s in out if not isinstance(s, ast.Pass)]
+        return kept if kept else out[:1]
+
+    for node in list(ast.walk(tree)):
+        for owner, f, v in list(_blocks(node)):
+            if not isinstance(owner, ast.ClassDef):
+                setattr(owner, f, plain(v))
     for node in list(ast.walk(tree)):
         for owner, f, v in list(_blocks(node)):
             setattr(owner, f, flatten(v))
